@@ -197,6 +197,7 @@ DEPENDS = [
     (r"stored-bytes rule|raw rule", ["C01", "C11", "C12", "C17"]),
     (r"header pin", ["C04", "C14"]),
     (r"read_at|single_fail|decompress", ["C15"]),
+    (r"default value|default window|unit arms|option value|range of --hash-length|max_level", ["C01", "C04", "C11", "C14"]),
     (r"open options|step |temp file|seed open|archive open", ["C14", "C16", "C11", "C05", "C06", "C01", "C02", "C03", "C04", "C13", "C17"]),
 ]
 
